@@ -409,6 +409,15 @@ func (mr *msgReader) Read(p []byte) (n int, err error) {
 		p = p[:n]
 		mr.dict.write(p)
 	}
+	if mr.flate && err == io.EOF {
+		// The deflate stream ended with a final block (RFC 7692 section 7.2.3.4).
+		// Discard what remains of the message so that it is not mistaken for
+		// the beginning of the next one.
+		_, err = io.Copy(io.Discard, mr.flateBufio)
+		if err == nil {
+			err = io.EOF
+		}
+	}
 	if errors.Is(err, io.EOF) || errors.Is(err, io.ErrUnexpectedEOF) && mr.fin && mr.flate {
 		mr.putFlateReader()
 		return n, io.EOF
